@@ -66,9 +66,18 @@ var parserWorkReceiveChannel = func() chan<- jobIn {
 						continue
 					}
 
+					lineData := job.data[i]
 					values := make([]octosql.Value, len(job.fields))
 					for i := range values {
-						values[i], _ = getOctoSQLValue(job.fields[i].Type, o.Get(job.fields[i].Name))
+						var ok bool
+						values[i], ok = getOctoSQLValue(job.fields[i].Type, o.Get(job.fields[i].Name))
+						if !ok {
+							out.err = fmt.Errorf("value of field '%s' doesn't fit its type %s in '%s'", job.fields[i].Name, job.fields[i].Type, string(lineData))
+							break
+						}
+					}
+					if out.err != nil {
+						continue
 					}
 
 					out.record = NewRecord(values, false, time.Time{})
